@@ -18,6 +18,10 @@ use crate::verif_prelude::*;
 
 //@hoist-all src/rule.rs | branch
 
+pub(crate) fn mk_checked<T>(inner: T) -> Checked<T> {
+    Checked { inner }
+}
+
 type Tk = Token<'static, crate::diagnostics::Span>;
 // leaf kinds as in the token unit: 0 literal, 1 `?`, 2 `*`, 3 `$`, 4 class, 5 separator, 6 tree
 // wildcard, 7 rooted tree wildcard
